@@ -362,6 +362,9 @@ def opVecDGen (op : String) (ws : List String) : Option String :=
   | "LogNorm" => vc (Gen.esl_vec_DLogNorm x n)
   | "Log2Norm" => vc (Gen.esl_vec_DLog2Norm x n)
   | "Entropy" => sc (Gen.esl_vec_DEntropy x n)
+  | "RelEntropy" =>
+    let y : Array Float := ((chunks 8 ((argHex? ws "y").getD [])).map codecD.dec).toArray
+    if y.size != x.size then some "bad-op" else sc (Gen.esl_vec_DRelEntropy x y n)
   | _ => none
 
 /-- the same routines over `float` as REGENERATED (binary32 cells, the double sub-expressions of the C text at `Float`: `VMix Float32 Float`) -/
@@ -383,6 +386,9 @@ def opVecFGen (op : String) (ws : List String) : Option String :=
   | "LogNorm" => vc (Gen.esl_vec_FLogNorm x n)
   | "Log2Norm" => vc (Gen.esl_vec_FLog2Norm x n)
   | "Entropy" => sc (Gen.esl_vec_FEntropy x n)
+  | "RelEntropy" =>
+    let y : Array Float32 := ((chunks 4 ((argHex? ws "y").getD [])).map codecF.dec).toArray
+    if y.size != x.size then some "bad-op" else sc (Gen.esl_vec_FRelEntropy x y n)
   | _ => none
 
 /-- both models of a routine must agree (the regenerated one and the hand model that carries the real-number theorems) -/
@@ -404,13 +410,13 @@ def opVec (ws : List String) : String :=
     let nPre (k : Nat) : Nat := match argInt? ws "n" with | some j => if j < (k : Int) && j ≥ 0 then j.toNat else k | none => k
     let gen : Option String := match T with
       | 'D' => match opVecDGen op ws with
-               | some g => some (agree g (opVecD op ((doubles xb).take (nPre (xb.length / 8))) [] (Float.ofBits (UInt64.ofNat sbits)) m))
+               | some g => some (agree g (opVecD op ((doubles xb).take (nPre (xb.length / 8))) ((doubles yb).take (nPre (xb.length / 8))) (Float.ofBits (UInt64.ofNat sbits)) m))
                | none =>
                  if op == "CDF" || op == "CDFInPlace" then
                    (opVecGen codecD "D" op ws).map fun g => agree g (opVecD op ((doubles xb).take (nPre (xb.length / 8))) [] 0 m)
                  else opVecGen codecD "D" op ws
       | 'F' => match opVecFGen op ws with
-               | some g => some (agree g (opVecF op ((floats xb).take (nPre (xb.length / 4))) [] (Float32.ofBits (UInt32.ofNat sbits)) m))
+               | some g => some (agree g (opVecF op ((floats xb).take (nPre (xb.length / 4))) ((floats yb).take (nPre (xb.length / 4))) (Float32.ofBits (UInt32.ofNat sbits)) m))
                | none =>
                if op == "CDF" || op == "CDFInPlace" then
                  (opVecGen codecF "F" op ws).map fun g => agree g (opVecF op ((floats xb).take (nPre (xb.length / 4))) [] 0 m)
